@@ -143,6 +143,14 @@ PROPS = {
                     'or by a 62 s jump so that they expire next to a second burst; every BeginBlocker/EndBlocker on a cache-wrapped multistore under a watchdog. votes / oracle: as for C02/C03 and C18.',
             'assumptions': ['every configured chain id is one of ethereum, bsc, minter, hub and the average block times are non-zero (hypothesis params_ok; an unknown chain id divides by zero in getBatchTimeoutHeight)',
                             'staking powers are non-negative']},
+    'C01': {'suites': hub_suite() + [{'name': 'hub', 'quick': '-n 60 -ops 80 -gov', 'thorough': '-n 500 -ops 120 -gov', 'shards': {'quick': 1, 'thorough': 8}}],
+            'trusted_base': HUB_TB + [
+                'external custody is a LEDGER derived from the history (Hub/World.v): a deposit / transfer event stands for a lock of its amount in the chain\'s contract or multisig before it was attested, a batch-executed event for the payout of that batch\'s amounts '
+                '(once per batch; executions the hub dropped are reported separately and not subtracted). That the contract only pays out batches signed by more than the threshold and locks what it reports is C08; that events are attested by 66% and applied in order is C02/C03',
+                'cross-chain liquidity is not part of the property as modelled: the bound is per asset over all chains together (an individual contract can run dry: C08 model refuses such a batch)'],
+            'rule': HUB_RULE + ' For C01 the monitor evaluates, after every operation and for every asset, phi = supply + hub value of pool and batch entries: it may grow only in an EndBlocker and only by the deposits applied there, and never exceeds the custody ledger.',
+            'assumptions': ['the token table is consistent (a token is found again by (chain, external id) and by id; 0..24 decimals: hypothesis tokens_ok)', 'fees are non-negative (MsgSendToExternal.ValidateBasic)',
+                            'execution claims of pending batches are handled by the hub (violated in the situations of the known finding C01/execution-event-dropped)']},
     'C18': {'suites': [{'name': 'oracle', 'quick': '-n 300 -ops 80', 'thorough': '-n 4000 -ops 160', 'shards': {'quick': 2, 'thorough': 16}}],
             'trusted_base': [
                 'model: coq/Oracle/Oracle.v (MsgPriceClaim / MsgHoldersClaim handlers, attestation vote lists, tryAttestation threshold, GetNormalizedValPowers, the two AttestationHandler branches, ProcessCurrentEpoch, '
@@ -242,6 +250,10 @@ TEXT = {
             'level': 'Theorems: code without an iterator body that both writes and opens another iterator never blocks (all loop counts, all dirty-entry counts), the excluded shape does block, and the current keepers contain no such site; BeginBlocker never panics for known chains; '
                      'an applied event fails on its own; tally and oracle never panic. PARTIAL: EndBlocker expiry refunds are not proved panic-free; deadlock freedom of the real store is the lock model plus watchdog runs, not a proof about cachekv/MemDB.',
             'note': 'Trusted: Coq kernel, the syntactic translator, the lock model of cachekv/MemDB, extraction + driver, Go harness with watchdog.'},
+    'C01': {'technique': 'Coq potential-function lemmas on the hub model (withdrawal, deposit, refund) + custody-ledger monitor over every co-executed history',
+            'level': 'Theorems: a withdrawal request never increases supply + in-flight value of any asset (all decimals 0..24, rates, discounts, amounts); an applied deposit raises it by exactly floor(locked value) and only for its asset; a hub refund returns exactly the in-flight value; a failed event changes nothing. '
+                     'PARTIAL: batch creation/cancellation (pure moves) and execution payouts are checked on every history by the monitor (potential grows only by applied deposits; potential <= custody ledger), not proved; one genuine defect is a known finding (execution claim dropped when its handling fails).',
+            'note': _HUB_NOTE},
     'C18': {'technique': 'Coq invariant over claim histories + order-independence lemma for the quorum + sorted-list proof of the weighted median + correspondence with the real x/oracle keeper',
             'level': 'Theorems for all histories and power distributions: epoch, prices and holders change at no step other than the epoch-boundary EndBlocker; voters are pairwise distinct and are exactly the validators with a stored (latest) report of the epoch; '
                      'the in-order early-exit quorum test equals "voters hold >= 66% of bonded power"; a boundary that changes prices/holders had that quorum; every stored price is the weighted median (half-weight bounds on both sides) of the latest reports; '
